@@ -22,6 +22,10 @@ class _Stop(Exception):
     pass
 
 
+class _BadRow(Exception):
+    pass
+
+
 class FakeComm:
     """Simulated communicator; allreduce is resolved in lock step by the harness."""
 
@@ -153,11 +157,31 @@ def eval_case(case):
             for rank in range(size):
                 dc = make_config(size, rank)
                 P.start_parallel_region()
+                trail = tuple(case.get("trail") or ())
                 if kind == "list":
                     part = P.block_distributed_list(list(items), return_index=ri)
                 else:
-                    part = P.block_distributed_array(numpy.array(items), return_index=ri)
+                    arr = numpy.array(items)
+                    if trail:
+                        # multi-dimensional array: the ROWS are distributed; item k is the
+                        # row whose entries all equal items[k] (+ column offset/1000)
+                        arr = arr.reshape((n,) + (1,) * len(trail)) + \
+                            numpy.arange(int(numpy.prod(trail))).reshape(trail) / 1000.0
+                    part = P.block_distributed_array(arr, return_index=ri)
                 P.close_parallel_region()
+                if trail:
+                    # back to the identifying integer of each row; rows must come whole
+                    def rid(r):
+                        r = numpy.asarray(r)
+                        if r.shape != trail:
+                            raise _BadRow(r.shape)
+                        return int(round(float(r.flat[0])))
+                    try:
+                        part = [(a, rid(b)) for a, b in part] if ri else [rid(b) for b in part]
+                    except _BadRow as e:
+                        viol.append(("array/row-shape", "rows of a %s array handed out with shape "
+                                     "%s" % ((n,) + trail, e.args[0]), None))
+                        part = []
                 if ri:
                     part = [(int(a), int(b)) for a, b in part]
                     if any(items[a] != b for a, b in part):
@@ -356,6 +380,25 @@ def _target(case, ham, sbi):
         return rt.data
     if what == "rates":
         return RedfieldRateMatrix(ham, sbi).data
+    if what == "ssrates":
+        # the distributed rate routine itself on synthetic components: contributions of both
+        # signs, some below the routine's own clipping threshold (1e-6), so that every
+        # non-linear step of the routine is exercised with partial sums that differ from the total
+        from quantarhei.implementations.python.redfieldrates import ssRedfieldRateMatrix
+        Na, Nk = case["nsites"] + 1, case["ncomp"]
+        KI = numpy.zeros((Nk, Na, Na))
+        cc = numpy.zeros((Nk, Na, Na))
+        for k in range(Nk):
+            for i in range(Na):
+                for j in range(Na):
+                    KI[k, i, j] = numpy.cos(1.3 * k + 0.7 * (i + j) + 0.4 * i * j)
+                    mag = {"large": 1.0e-3, "tiny": 3.0e-7}[case["mag"]] * (1 + ((i + 2 * j + k) % 3))
+                    sgn = 1.0 if case["signs"] == "positive" else (-1.0) ** (k + i + j)
+                    cc[k, i, j] = sgn * mag
+        RR = numpy.zeros((Na, Na))
+        werr = numpy.zeros(2, dtype=numpy.int8)
+        ssRedfieldRateMatrix(Na, Nk, KI, cc, 1.0e-6, werr, RR)
+        return RR
     if what == "ops_raw":
         # the operator representation itself: the stored K_m, Lambda_m and Lambda_m^+ are
         # the result every rank keeps (no tensor is built from them)
@@ -450,6 +493,12 @@ def cases(tier):
             for size in range(1, smax + 1):
                 for n in range(0, 2 * size + 4):
                     cs.append({"kind": kind, "size": size, "n": n, "return_index": ri})
+    for trail in ([3], [1], [2, 2]):
+        for ri in (False, True):
+            for size in range(1, min(smax, 6) + 1):
+                for n in range(0, 2 * size + 4):
+                    cs.append({"kind": "array", "size": size, "n": n, "return_index": ri,
+                               "trail": trail})
     ranges = [(0, 5), (5, 10), (0, 6), (6, 12), (3, 3), (2, 4), (-2, 3)]
     import itertools
     for size in range(2, (4 if tier == "quick" else 6) + 1):
@@ -471,6 +520,14 @@ def cases(tier):
             for size in range(2, 4):
                 cs.append({"kind": "reduce", "target": target, "nsites": nsites, "size": size,
                            "nt": 100, "nested": True})
+    for signs in ("positive", "alternating"):
+        for mag in ("large", "tiny"):
+            for nsites in (1, 2, 3):
+                for ncomp in ((2, 3, 4) if tier == "quick" else (2, 3, 4, 5, 7)):
+                    for size in range(2, (4 if tier == "quick" else 6) + 1):
+                        cs.append({"kind": "reduce", "target": "ssrates", "nsites": nsites,
+                                   "ncomp": ncomp, "signs": signs, "mag": mag, "size": size,
+                                   "nt": 20})
     for target in TARGETS:
         for nsites in ((2, 3) if tier == "quick" else (2, 3, 4, 5)):
             for size in range(1, (4 if tier == "quick" else 7) + 1):
